@@ -156,6 +156,6 @@ def _binop(ex, op, a, b, line):
     return None
 
 
-W.user_binop = _binop
+W.binop_hooks.append(_binop)
 _calendar_monthrange = lambda ex, args, kwargs, e: (None, V(dim(ex._num(args[0]), ex._num(args[1])), INT))
 W.externs['calendar.monthrange'] = Extern(fn=_calendar_monthrange)
